@@ -159,9 +159,11 @@ def run_driver(lines: list[str], timeout: int = 3000) -> list[str]:
         if "\n" in ln:
             raise ValueError("newline in op line")
     inp.write_text("".join(ln + "\n" for ln in lines))
+    exe = LEAN / ".lake" / "build" / "bin" / "driver"
+    # the compiled driver (built by `lake build`, nothing it imports touches Mathlib); interpreter as fallback
+    cmd = [str(exe)] if exe.exists() else ["lake", "env", "lean", "--run", "Driver.lean"]
     with open(inp) as fh:
-        p = subprocess.run(["lake", "env", "lean", "--run", "Driver.lean"], cwd=LEAN, stdin=fh,
-                           capture_output=True, text=True, timeout=timeout)
+        p = subprocess.run(cmd, cwd=LEAN, stdin=fh, capture_output=True, text=True, timeout=timeout)
     inp.unlink(missing_ok=True)
     if p.returncode != 0:
         raise RuntimeError("Lean driver failed: " + (p.stderr or p.stdout)[-2000:])
